@@ -57,7 +57,22 @@ def _all_sequences():
     return seqs          # 65 ordered sequences of distinct patterns
 
 
+def _others(seed, run, case):
+    ro = Stream(seed, ID, run, 'other_specs')
+    if not ro.chance(0.25):
+        return
+    ops = case['ops']
+    for _ in range(ro.randint(1, 3)):
+        regs = [[ro.choice(['Conv2d', 'Conv1d']), ro.choice(PATS), ro.randint(1, 999)] for _ in range(ro.randint(0, 3))]
+        looks = [[ro.choice(['Conv2d', 'Conv1d']), ro.chance(0.5), ro.chance(0.5), ro.chance(0.5)]
+                 for _ in range(ro.randint(0, 3))]
+        pos = ro.randint(0, max(0, len(ops) - 1))       # (never after the final cross-check)
+        ops.insert(pos, {'op': 'other_spec', 'j': ro.randint(0, 1), 'default': ro.choice(['zero', 'fail']),
+                         'regs': regs, 'lookups': looks})
+
+
 def _styles(seed, run, case):
+    _others(seed, run, case)
     st = Stream(seed, ID, run, 'constraint_style')
     case['s2_style'] = st.wchoice([('function', 4), ('partial', 2), ('callable', 1.5), ('method', 1), ('lambda', 1.5)])
     if st.chance(0.2):
@@ -314,9 +329,27 @@ def execute(case):
 
     nontrivial = False
     steps = 0
+    other_specs = {}
     for i, op in enumerate(case['ops']):
         steps += 1
         kind = op['op']
+        if kind == 'other_spec':
+            # ANOTHER specification object of the same process (a second hardware target, an earlier experiment) is
+            # filled and queried in between: the specification under test must not notice
+            bump('fault_other_specification_object_used')
+            j = op['j']
+            if j not in other_specs:
+                other_specs[j] = CostSpec(shared=bool(j % 2), default_behavior=op['default'])
+            osp = other_specs[j]
+            for (t_, p_, v_) in op['regs']:
+                osp[(tmap[t_], cmap[p_])] = (lambda spec, _v=v_: torch.tensor(float(_v)))
+            for (t_, dw_, k3_, s2_) in op['lookups']:
+                try:
+                    osp[(tmap[t_], layer_spec(t_, dw_, k3_, s2_))]
+                except KeyError:
+                    pass
+            events.append(f"{i} other specification #{j}: {len(op['regs'])} registrations, {len(op['lookups'])} lookups")
+            continue
         if kind == 'reg':
             fn, val = mk_fn(op['fid'])
             if op.get('use_default'):
